@@ -176,8 +176,50 @@ static std::string app_call(const Args& a)
     return std::to_string(s.size());
 }
 
+// dcd_seq <level bits> <triggered> then per step: <level_1 bits> <level_2 bits>, or -1 0 for unlock(): the demodulator's own detector object
+static std::string dcd_seq(const Args& a)
+{
+    using namespace mobilinkd;
+    auto cbk = [](M17FrameDecoder::output_buffer_t const&, int) { return true; };
+    M17Demodulator<float> demod(cbk);
+    auto& d = demod.dcd;
+    auto fromBits = [](long long b) { uint32_t u = uint32_t(b); float f; std::memcpy(&f, &u, 4); return f; };
+    d.level_ = fromBits(a.at(0)); d.triggered_ = a.at(1) != 0;
+    std::vector<long long> out;
+    for (size_t i = 2; i + 1 < a.size(); i += 2) {
+        if (a[i] < 0) d.unlock();
+        else { d.level_1 = fromBits(a[i]); d.level_2 = fromBits(a[i + 1]); d.update(); }
+        float l = d.level(); uint32_t u; std::memcpy(&u, &l, 4);
+        out.push_back(std::isnan(l) ? -1 : (long long)u);
+        out.push_back(d.dcd() ? 1 : 0);
+    }
+    return join(out);
+}
+
+// dcd_ratio <block> samples(int16)...: band energies the detector accumulates over consecutive blocks of a sample stream -> per block "level_1 bits level_2 bits"
+static std::string dcd_ratio(const Args& a)
+{
+    using namespace mobilinkd;
+    auto cbk = [](M17FrameDecoder::output_buffer_t const&, int) { return true; };
+    M17Demodulator<float> demod(cbk);
+    auto& d = demod.dcd;
+    long block = a.at(0);
+    std::vector<long long> out;
+    for (size_t i = 1; i < a.size(); ++i) {
+        d(float(double(a[i]) / 41067.0));
+        if (long(i) % block == 0) {
+            uint32_t u1, u2; float l1 = d.level_1, l2 = d.level_2; std::memcpy(&u1, &l1, 4); std::memcpy(&u2, &l2, 4);
+            out.push_back(u1); out.push_back(u2);
+            d.update();
+        }
+    }
+    return join(out);
+}
+
 static std::string handle(const std::string& op, const Args& a)
 {
+    if (op == "dcd_seq") return dcd_seq(a);
+    if (op == "dcd_ratio") return dcd_ratio(a);
     if (op == "rx") return rx(a);
     if (op == "hostile") return hostile(a);
     if (op == "app_lsf") return app_lsf(a);
